@@ -1,7 +1,8 @@
 (* Property theorems for C07 -- statements only; proofs are `exact` of lemmas
    (or vm_compute over the tables regenerated from the sources). *)
 From Coq Require Import ZArith List Bool String.
-From GD Require Import C07.Token C07.TokenProofs C07.Number C07.NumberProofs C07.Tables C07.Digits Gen.Formats.
+From GD Require Import C07.Token C07.TokenProofs C07.Number C07.NumberProofs C07.Entry C07.EntryProofs
+  C07.Witness C07.Tables C07.Digits Gen.Formats.
 Import ListNotations.
 Local Open Scope Z_scope.
 
@@ -69,3 +70,125 @@ Proof. apply gates_ok_spec. vm_compute. reflexivity. Qed.
 
 Theorem version_sound_directives : directives_ok writer_directive_from parser_directive_gate = true.
 Proof. vm_compute. reflexivity. Qed.
+
+(* (3) a written line tokenises into exactly the intended tokens: any line
+   made of escaped strings and verbatim number/keyword text, separated by
+   blanks (this is the shape of every line _GD_FieldSpec writes) *)
+Theorem line_tokens_roundtrip : forall l : list item,
+  Forall item_ok l -> tokenise true (items_text false l) = inr (items_toks l).
+Proof. exact tokenise_items. Qed.
+
+(* (3) entry round trips: parse_line (print_entry e) = Some e, writer at
+   Standards Version 6..10 (non-permissive), reader = pedantic parser at the
+   declared version.  Names: any NUL-free bytes the parser's name validation
+   accepts; input codes: any NUL-free bytes except the one-character codes
+   r,i,a,m and a leading dot; integer parameters: the full range of the C type;
+   strings: any NUL-free bytes. *)
+Theorem entry_roundtrip_raw : forall c name t v,
+  ctx_ok c -> name_ok c name -> type_ok c t -> 1 <= v < 2 ^ 32 ->
+  parse_line (rctx_of c) (print_entry c (ERaw name t (SLit v))) = Some (ERaw name t (SLit v)).
+Proof. exact raw_roundtrip. Qed.
+
+Theorem entry_roundtrip_bit : forall c sgn name inf bn nb,
+  ctx_ok c -> (sgn = true -> 7 <= w_std c) -> name_ok c name -> code_ok c inf ->
+  0 <= bn -> 1 <= nb -> bn + nb - 1 <= 63 ->
+  parse_line (rctx_of c) (print_entry c (EBit sgn name inf (SLit bn) (SLit nb)))
+  = Some (EBit sgn name inf (SLit bn) (SLit nb)).
+Proof. exact bit_roundtrip. Qed.
+
+Theorem entry_roundtrip_phase : forall c name inf shift,
+  ctx_ok c -> name_ok c name -> code_ok c inf -> - two63 <= shift < two63 ->
+  parse_line (rctx_of c) (print_entry c (EPhase name inf (SLit shift))) = Some (EPhase name inf (SLit shift)).
+Proof. exact phase_roundtrip. Qed.
+
+Theorem entry_roundtrip_string : forall c name v,
+  ctx_ok c -> name_ok c name -> no_nul v ->
+  parse_line (rctx_of c) (print_entry c (EString name v)) = Some (EString name v).
+Proof. exact string_roundtrip. Qed.
+
+Theorem entry_roundtrip_linterp : forall c name inf table,
+  ctx_ok c -> name_ok c name -> code_ok c inf -> no_nul table ->
+  parse_line (rctx_of c) (print_entry c (ELinterp name inf table)) = Some (ELinterp name inf table).
+Proof. exact linterp_roundtrip. Qed.
+
+(* MULTIPLY, DIVIDE, INDIR, SINDIR *)
+Theorem entry_roundtrip_yoke : forall c k name a b,
+  ctx_ok c -> yoke_min k <= w_std c -> name_ok c name -> code_ok c a -> code_ok c b ->
+  parse_line (rctx_of c) (print_entry c (EYoke k name a b)) = Some (EYoke k name a b).
+Proof. exact yoke_roundtrip. Qed.
+
+Theorem entry_roundtrip_mplex : forall c name inf cnt v p,
+  ctx_ok c -> 9 <= w_std c -> name_ok c name -> code_ok c inf -> code_ok c cnt ->
+  - 2147483648 <= v < 2147483648 -> 0 <= p < 2147483648 ->
+  parse_line (rctx_of c) (print_entry c (EMplex name inf cnt (SLit v) (SLit p)))
+  = Some (EMplex name inf cnt (SLit v) (SLit p)).
+Proof. exact mplex_roundtrip. Qed.
+
+(* CONST of all twelve types: integers over the full 64-bit ranges; floating
+   and complex values exactly where the literal is read back (dlit_ok/clit_ok
+   = the executable printf/_GD_TokToNum model returns the same bits) *)
+Theorem entry_roundtrip_const : forall c name t v,
+  ctx_ok c -> name_ok c name -> type_ok c t -> cval_ok c t v ->
+  parse_line (rctx_of c) (print_entry c (EConst name t v)) = Some (EConst name t v).
+Proof. exact const_roundtrip. Qed.
+
+Theorem entry_roundtrip_recip : forall c name inf d,
+  ctx_ok c -> 8 <= w_std c -> name_ok c name -> code_ok c inf -> clit_ok c d ->
+  parse_line (rctx_of c) (print_entry c (ERecip name inf (im_nonzero (SLit d)) (SLit d)))
+  = Some (ERecip name inf (im_nonzero (SLit d)) (SLit d)).
+Proof. exact recip_roundtrip. Qed.
+
+Theorem entry_roundtrip_lincom1 : forall c name inf m b,
+  let comp := im_nonzero (SLit m) || im_nonzero (SLit b) in
+  ctx_ok c -> name_ok c name -> code_ok c inf -> nlit_ok c comp m -> nlit_ok c comp b ->
+  parse_line (rctx_of c) (print_entry c (ELincom name comp [(inf, SLit m, SLit b)]))
+  = Some (ELincom name comp [(inf, SLit m, SLit b)]).
+Proof. exact lincom1_roundtrip. Qed.
+
+(* the hypotheses are satisfiable *)
+Example entry_roundtrip_hyps_sat :
+  ctx_ok (ctx 10 17) /\ name_ok (ctx 10 17) name1 /\ code_ok (ctx 10 17) (bytes_of_string "in put") /\
+  type_ok (ctx 10 17) T_C128 /\ dlit_ok (ctx 10 17) d_03.
+Proof.
+  split; [apply ctx_ok_10|]. split; [apply name1_ok|]. split; [apply code1_ok|].
+  split; [vm_compute; reflexivity | apply dlit_17_ok].
+Qed.
+
+(* full statement for double literals and its status on the model of the code:
+   refuted with 15 digits (0.1+0.2), and even with 17 digits for subnormal
+   values (strtod's ERANGE is treated as "not a number" by _GD_TokToNum) and
+   for -0.0 ("-0" is read through strtoll) *)
+Definition double_literal_roundtrip_statement := C07.Witness.double_literal_roundtrip_statement.
+
+Theorem double_literal_roundtrip_refuted_15 : ~ double_literal_roundtrip_statement 15.
+Proof. exact dbl_stmt_refuted_15. Qed.
+
+Theorem double_literal_roundtrip_refuted_subnormal :
+  exists b, dbl_is_subnormal b = true /\ ~ dlit_ok (ctx 10 17) b.
+Proof. exact dbl_stmt_refuted_17_subnormal. Qed.
+
+Theorem double_literal_roundtrip_refuted_negzero : ~ dlit_ok (ctx 10 17) d_negzero.
+Proof. exact dbl_stmt_refuted_17_negzero. Qed.
+
+Theorem const_float64_15_digits_lost :
+  parse_line (rctx_of (ctx 10 15)) (print_entry (ctx 10 15) (EConst (bytes_of_string "c") T_F64 (VD d_03)))
+  = Some (EConst (bytes_of_string "c") T_F64 (VD 0x3FD3333333333333)).
+Proof. exact const_15_lost. Qed.
+
+(* version_sound for hidden entries, decided on the regenerated tables: full
+   statement = for every entry type T, the versions _GD_FindVersion leaves
+   available for a database with a hidden T are accepted by the parser gate of
+   T.  On a tree where the per-type rule is skipped for hidden entries the
+   theorem exhibits a type whose gate is above the hidden-entry minimum. *)
+Definition hidden_flag_min : Z :=
+  match lookup "HIDDEN_FLAG_MIN" writer_directive_from with Some v => v | None => 0 end.
+
+Definition version_sound_hidden_statement : Prop :=
+  hidden_statement hidden_skips_type_rule hidden_flag_min writer_min_version parser_gate.
+
+Theorem version_sound_hidden_verdict :
+  match first_bad_hidden hidden_skips_type_rule hidden_flag_min writer_min_version parser_gate writer_min_version with
+  | None => version_sound_hidden_statement
+  | Some _ => hidden_refutation hidden_skips_type_rule hidden_flag_min writer_min_version parser_gate
+  end.
+Proof. exact (hidden_verdict hidden_skips_type_rule hidden_flag_min writer_min_version parser_gate). Qed.
